@@ -4,12 +4,18 @@ import "time"
 
 func init() {
 	reg(&prop{
-		id: "C08", pkg: "c08", prep: prepStdh("san"),
-		rule: "model-based: rapid-generated histories (3..40 steps) on one object of every std kind - initialize (good; sizeof +-1/+-8; other major / newer minor version; ALREADY_ZEROED over used, garbage or zero memory; LEAVE_INTERNAL_BUFFERS_UNINITIALIZED; re-initialisation), feed 0..n source bytes with or without closing, offer 0..70000 destination bytes (exact-size heap windows), and calls of every status-returning public method (transform_io / decode_image_config / decode_frame_config / decode_frame / restart_frame / tell_me_more / decode_tokens / set_quirk) with valid, NULL-destination, NULL-source, short-work-buffer or NULL-receiver arguments, over real files (corpus, optionally corrupted) or raw bytes. Oracle: a 3-variable reference model (magic in {raw, ok, disabled}, suspended coroutine, image call-sequence facts) predicts for each step either the exact protocol status ('#base: initialize not called', 'bad sizeof receiver', 'bad wuffs version', 'initialize falsely claimed already zeroed', 'bad receiver', 'bad argument', 'interleaved coroutine calls', 'disabled by previous error', 'bad call sequence' for a repeated decode_image_config or an early restart_frame) or 'decoder-defined', in which case the protocol statuses must NOT appear and the model follows the category (error of a coroutine => disabled, suspension => active); plus the harness checks after EVERY call, failing ones included: 0<=ri<=wi<=len, ri/wi monotone, source bytes and already-written destination bytes unchanged, pos/closed/ptr/len untouched; pure methods probed around every call. Non-trivial = history with a call after a protocol error, an interleaved-coroutine step or an out-of-order image step; distinct by (kind, step sequence).",
+		id: "C08", pkg: "c08", prep: chain(prepStdh("san"), prepE2),
+		rule: "model-based: rapid-generated histories (3..40 steps) on one object of every std kind - initialize (good; sizeof +-1/+-8; other major / newer minor version; ALREADY_ZEROED over used, garbage or zero memory; LEAVE_INTERNAL_BUFFERS_UNINITIALIZED; re-initialisation), feed 0..n source bytes with or without closing, offer 0..70000 destination bytes (exact-size heap windows), and calls of every status-returning public method (transform_io / decode_image_config / decode_frame_config / decode_frame / restart_frame / tell_me_more / decode_tokens / set_quirk) with valid, NULL-destination, NULL-source, short-work-buffer or NULL-receiver arguments, over real files (corpus, optionally corrupted) or raw bytes. Oracle: a 3-variable reference model (magic in {raw, ok, disabled}, suspended coroutine, image call-sequence facts) predicts for each step either the exact protocol status ('#base: initialize not called', 'bad sizeof receiver', 'bad wuffs version', 'initialize falsely claimed already zeroed', 'bad receiver', 'bad argument', 'interleaved coroutine calls', 'disabled by previous error', 'bad call sequence' for a repeated decode_image_config or an early restart_frame) or 'decoder-defined', in which case the protocol statuses must NOT appear and the model follows the category (error of a coroutine => disabled, suspension => active); plus the harness checks after EVERY call, failing ones included: 0<=ri<=wi<=len, ri/wi monotone, source bytes and already-written destination bytes unchanged, pos/closed/ptr/len untouched; pure methods probed around every call. Non-trivial = history with a call after a protocol error, an interleaved-coroutine step or an out-of-order image step; distinct by (kind, step sequence). Generated packages (engine E2, job generated-protocol): wgen programs (often with two public coroutines, refined setter parameters) accepted by the tree's checker are compiled with the tree's wuffs-c and driven through protocol-deviating histories (no initialize, re-initialise mid-way, a coroutine left suspended and then another coroutine / the same one / a plain method, calls after an error status, out-of-range arguments); the complete C trace (every status, return value, ri/wi and the final outputs) must equal the trace of the reference interpreter, whose Call() is an independent model of the documented prologue. Non-trivial there = the reference predicts >= 1 protocol status.",
 		assumptions:   []string{"image decoders' call_sequence is modelled only for the two rules that do not depend on implicit calls; everything else is 'decoder-defined'", "a failed initialize is modelled as leaving the object unchanged (that is what the generated code does: it returns before touching memory)"},
 		minNontrivial: 2000,
-		quick:         tier{jobs: []job{{name: "protocol", run: "^TestProp$", shards: 16, checks: 1500, timeout: 15 * time.Minute}}},
-		thorough:      tier{jobs: []job{{name: "protocol", run: "^TestProp$", shards: 16, checks: 60000, timeout: 120 * time.Minute}}},
+		quick: tier{jobs: []job{
+			{name: "protocol", run: "^TestProp$", shards: 16, checks: 1500, timeout: 15 * time.Minute},
+			{name: "generated-protocol", pkg: "e2", run: "^TestPropC08Gen$", shards: 16, checks: 4, timeout: 20 * time.Minute},
+		}},
+		thorough: tier{jobs: []job{
+			{name: "protocol", run: "^TestProp$", shards: 16, checks: 60000, timeout: 120 * time.Minute},
+			{name: "generated-protocol", pkg: "e2", run: "^TestPropC08Gen$", shards: 16, checks: 300, timeout: 120 * time.Minute},
+		}},
 	})
 	reg(&prop{
 		id: "C10", pkg: "c10", prep: chain(prepStdh("san"), prepSnapObj),
